@@ -1,0 +1,20 @@
+//go:build verif
+
+package util
+
+import "sync/atomic"
+
+var verifHook atomic.Value //nolint:gochecknoglobals
+
+// SetVerifHook installs f as the function called at every instrumented yield point; only compiled
+// in with the "verif" build tag (runtime verification harness).
+func SetVerifHook(f func(point string)) {
+	verifHook.Store(f)
+}
+
+// VerifYield names a yield point; with the "verif" build tag it calls the installed hook.
+func VerifYield(point string) {
+	if f, ok := verifHook.Load().(func(string)); ok && f != nil {
+		f(point)
+	}
+}
